@@ -58,6 +58,9 @@ def _geoms(tier):
         dict(cb=9, ver=3, W=3, at="absent", alpha="V3", layout="l1_first", cut=0, hl=112, backing="empty",
              tbase=1 << 55, dbase=GB4, only=[B.U, B.Z, B.N, B.A]),
         dict(cb=12, ver=3, W=3, at="0", alpha="V3", layout="l1_first", cut=0, hl=112, only=[B.U, B.N, B.C, B.I]),
+        # compressed clusters whose deflate stream is 1.3 x the cluster size (valid: the descriptor addresses up to 2 x)
+        dict(cb=12, ver=3, W=3, at="0", alpha="V3", layout="l1_first", cut=0, hl=112, only=[B.U, B.N, B.L]),
+        dict(cb=16, ver=3, W=3, at="0", alpha="V3", layout="l1_first", cut=512, hl=112, only=[B.N, B.L, B.C]),
         dict(cb=12, ver=2, W=3, at="0", alpha="V2", layout="l1_first", cut=0, v2="fmt+backing", backing="shorter"),
         # compressed clusters byte-packed back to back (several start in the same 512-byte host sector), as qemu-img -c writes
         dict(cb=12, ver=3, W=4, at="0", alpha="V3", layout="l1_first", cut=0, hl=112, only=[B.U, B.N, B.C], pack=True),
